@@ -843,6 +843,7 @@ func verifDumpTables() {
 		"RedactedObjectId":           RedactedObjectId,
 		"RedactedUUID":               RedactedUUID,
 		"emailRegex":                 emailRegex.String(),
+		"ixscanRegex":                ixscanRegex.String(),
 	}
 	keys := make([]string, 0, len(d))
 	for k := range d {
